@@ -293,3 +293,117 @@ func allLogsProcessed(c *Check, rule, fnSpec string) {
 		c.Req(!inLoop, rule, fmt.Sprintf("%s/all-logs-before-success#%d", funcName(fn), i), r.Pos(), "success only after the last log", "a success return is reachable before the loop over the receipt's logs is exhausted: later events of the same transaction are silently skipped")
 	}
 }
+
+// keeperFieldsRule: a keeper is wiring only (store key, codec, parameter subspace, other keepers, names).  A field that
+// can hold values across calls in process memory (pointer, map, slice, channel, function, sync/atomic or any other
+// struct) makes block processing depend on what this node process did before, not only on genesis and blocks.
+func keeperFieldsRule(c *Check, rule string, pkgFilter func(string) bool) int {
+	n := 0
+	for _, pk := range c.P.Pkgs {
+		if pkgFilter != nil && !pkgFilter(pk.PkgPath) {
+			continue
+		}
+		obj := pk.Types.Scope().Lookup("Keeper")
+		if obj == nil {
+			continue
+		}
+		st, ok := obj.Type().Underlying().(*types.Struct)
+		if !ok {
+			continue
+		}
+		for i := 0; i < st.NumFields(); i++ {
+			f := st.Field(i)
+			n++
+			okT, why := wiringType(f.Type())
+			c.Req(okT, rule, short(pk.PkgPath)+".Keeper."+f.Name(), f.Pos(), why, fmt.Sprintf("keeper field %s has type %s (%s): state kept in process memory survives between blocks and differs between nodes (restart, query load); consensus-relevant values belong in the store", f.Name(), typeStr(f.Type()), why))
+		}
+	}
+	return n
+}
+
+func wiringType(t types.Type) (bool, string) {
+	switch u := t.Underlying().(type) {
+	case *types.Interface:
+		return true, "interface (another keeper, codec, store key)"
+	case *types.Basic:
+		return true, "basic value set at construction"
+	case *types.Struct:
+		if nt, ok := t.(*types.Named); ok {
+			if nt.Obj().Name() == "Keeper" && nt.Obj().Pkg() != nil && strings.HasPrefix(nt.Obj().Pkg().Path(), modPath) {
+				return true, "embedded keeper (checked on its own)"
+			}
+			if nt.Obj().Name() == "Subspace" && nt.Obj().Pkg() != nil && strings.HasSuffix(nt.Obj().Pkg().Path(), "x/params/types") {
+				return true, "parameter subspace (a handle on the params store)"
+			}
+		}
+		_ = u
+		return false, "struct value of another type"
+	case *types.Pointer:
+		return false, "pointer"
+	case *types.Map:
+		return false, "map"
+	case *types.Slice:
+		return false, "slice"
+	case *types.Chan:
+		return false, "channel"
+	case *types.Signature:
+		return false, "function value"
+	}
+	return false, "unsupported kind"
+}
+
+// appOptionsRule: the application constructor reads node-local configuration (app.toml / flags) only through the audited
+// keys below; each is audited not to influence block results.
+var auditedAppOptions = map[string]string{
+	"\"evm.tracer\"":                       "EVM tracer of the ethermint keeper: only produces debug traces, off the state machine",
+	"\"x-crisis-skip-assert-invariants\"": "crisis module: skips the invariant assertion at genesis (no state)",
+}
+
+func appOptionsRule(c *Check, rule string) int {
+	app := c.F("app.NewTeleport")
+	n := 0
+	for _, cs := range c.P.CallsIn(app) {
+		if !strings.HasSuffix(cs.Name, "AppOptions.Get") {
+			continue
+		}
+		n++
+		key := c.P.ArgExprs(cs)[1].String()
+		why, ok := auditedAppOptions[key]
+		c.Req(ok, rule, "appOpts.Get("+key+")", cs.Ins.Pos(), why, "the application constructor reads the node-local option "+key+", which is not in the audited list: a value from app.toml / command-line flags that reaches a keeper makes nodes with different configuration compute different results")
+	}
+	return n
+}
+
+// exportLoopsComplete: a function that collects state for the genesis export does not return successfully from inside
+// its collecting loop (an early success return silently drops the remaining entries).
+func exportLoopsComplete(c *Check, rule string, fns []*ssa.Function) int {
+	n := 0
+	for _, fn := range fns {
+		if fn.Parent() != nil || len(fn.Blocks) == 0 {
+			continue
+		}
+		res := fn.Signature.Results()
+		collects := false
+		for i := 0; i < res.Len(); i++ {
+			if _, isSlice := res.At(i).Type().Underlying().(*types.Slice); isSlice {
+				collects = true
+			}
+		}
+		if !collects || !(strings.HasPrefix(fn.Name(), "GetAll") || strings.HasPrefix(fn.Name(), "Export")) {
+			continue
+		}
+		fa := c.P.FA(fn)
+		c.Touch(fn)
+		for i, r := range fa.NonRejectReturns() {
+			inLoop := ""
+			for s := range fa.PathCondStrings(r.Block()) {
+				if strings.HasPrefix(s, "((μ{-1} + 1) < len(") || strings.HasPrefix(s, "iface:cosmos-sdk/types.Iterator.Valid(") {
+					inLoop = s
+				}
+			}
+			n++
+			c.Req(inLoop == "", rule, fmt.Sprintf("%s/return#%d outside the collecting loop", funcName(fn), i), r.Pos(), "", "a successful return sits inside the collecting loop (under "+trunc(inLoop)+"): the entries after the first one that takes this exit are missing from the exported genesis")
+		}
+	}
+	return n
+}
